@@ -71,6 +71,7 @@ type VerifOp struct {
 	FirstTxn bool          `json:"first_txn,omitempty"` // race: the first writer is a (single-dataset) transaction
 	Pre      []VerifOp     `json:"pre,omitempty"`       // race: read ops run while writer 1 is held, before writer 2 starts
 	Mid      []VerifOp     `json:"mid,omitempty"`       // race: read ops run after writer 2 committed, before writer 1 is released
+	Resend   bool          `json:"resend,omitempty"`    // httpcont: every continuation request re-sends the original query document with the tokens added
 }
 
 type VerifCase struct {
@@ -191,6 +192,7 @@ func (h *verifHub) close() {
 
 // VerifC03Run executes one history on a fresh store under dir.
 func VerifC03Run(c VerifCase, dir string) (obs VerifObs) {
+	verifRelSessions = nil
 	_ = os.MkdirAll(dir, 0o755)
 	defer os.RemoveAll(dir)
 	h := &verifHub{dir: dir}
@@ -629,6 +631,54 @@ func verifDoOp(h *verifHub, op VerifOp, idx int, times map[int]int64, tokens map
 			}
 			froms = res.Cont
 		}
+	case "relq", "relcont":
+		// a paged store-level query split in two: relq = the first page (GetManyRelatedEntitiesBatch-like, "now" or op.at),
+		// relcont = all further pages from the kept continuation list (other ops, e.g. delete_ds, may come in between)
+		if verifRelSessions == nil {
+			verifRelSessions = map[string][]*RelatedFrom{}
+		}
+		oo.RPages = [][]VerifRel{}
+		var froms []*RelatedFrom
+		if op.Op == "relq" {
+			at, hasAt := verifAt(op, times)
+			if !hasAt {
+				at = 1 << 62
+			}
+			var err error
+			froms, err = store.ToRelatedFrom(op.Starts, op.Pred, op.Inverse, op.Datasets, at)
+			if err != nil {
+				oo.Err = err.Error()
+				return
+			}
+			if froms == nil {
+				oo.RPages = append(oo.RPages, []VerifRel{})
+				verifRelSessions[op.ID] = nil
+				return
+			}
+		} else {
+			froms = verifRelSessions[op.ID]
+		}
+		for p := 0; len(froms) > 0 && p < 60; p++ {
+			res, err := store.GetManyRelatedEntitiesAtTime(froms, op.Limit, true)
+			if err != nil {
+				oo.Err = err.Error()
+				return
+			}
+			page := []VerifRel{}
+			for _, r := range res.Relations {
+				id := ""
+				if r.RelatedEntity != nil {
+					id = r.RelatedEntity.ID
+				}
+				page = append(page, VerifRel{Start: r.StartURI, Pred: r.PredicateURI, ID: id})
+			}
+			oo.RPages = append(oo.RPages, page)
+			froms = res.Cont
+			if op.Op == "relq" {
+				break
+			}
+		}
+		verifRelSessions[op.ID] = froms
 	case "delete_ds":
 		if err := h.dsm.DeleteDataset(op.Ds); err != nil {
 			oo.Err = err.Error()
@@ -647,6 +697,8 @@ func verifDoOp(h *verifHub, op VerifOp, idx int, times map[int]int64, tokens map
 	}
 	return
 }
+
+var verifRelSessions map[string][]*RelatedFrom
 
 // VerifExtOps lets the driver's main package add operations that need packages which import package server
 // (jobs: relationship queries from inside a job's javascript transform; web: POST /query with continuation tokens)
